@@ -45,7 +45,7 @@ def enum_triples():
 def random_raise(rng, tok, kinds=RAISE_KINDS, custom=(), depth=0):
     r = rng.random()
     if r < 0.12 and depth < 2:
-        n = rng.randint(1, 3)
+        n = rng.randint(1, 3) if (depth or rng.random() < 0.9) else 0     # now and then: carrying nothing
         sub_kinds = ["fail", "error", "failsub"] + list(custom)
         if "kbd" in kinds and rng.random() < 0.3:
             sub_kinds += ["kbd", "exit"]     # e.g. stacked fixtures interrupted while setting up
